@@ -565,7 +565,7 @@ def check_tridiag(chk, sc):
         return
     T64 = T.double()
     if mi == 1 and k == 1 and not r.warn and len(r.calls) == 2 and bool((T64 == 0).all()):
-        # known finding: the tolerance exit of the only iteration (k = 0) comes before the tridiagonal update
+        # defect fixed by be05109 (tolerance exit used to precede the tridiagonal block): must stay fixed
         chk.violation(f"C08/tridiag-empty/maxit=1/n={n}|ntri={nt}|dtype={'f32' if dt == F32 else 'f64'}",
                       f"linear_cg(max_iter=1, max_tridiag_iter={mt}, n_tridiag={nt}) reached the tolerance in its only iteration and returns the 1x1 "
                       f"tridiagonal matrix [[0]] (Ritz value 0 outside the spectrum [{float(torch.linalg.eigvalsh(sc['A'].double()).min()):.4g}, ...])", pl)
@@ -640,6 +640,62 @@ def check_tridiag(chk, sc):
                     chk.count("quadrature_checked")
     # the solution returned together with the tridiagonals is the same as without them when the stop rule is not involved
     chk.evaluations += 1
+
+
+def check_nowarn(chk, consts, g, rng):
+    """No NumericalWarning => mean relative (true) residual below the tolerance: terminate_cg_by_size on/off x
+    n <,=,> max_iter x ill-conditioned spectra x tolerances x preconditioner x tridiagonals x mixed-norm columns x dtype."""
+    reps = 1 if chk.tier == "quick" else 4
+    for rep_ in range(reps):
+        for term in (True, False):
+            for rel in ("n<maxit", "n=maxit", "n>maxit"):
+                for kappa in (1e2, 1e4, 1e6):
+                    for pre in ("none", "jacobi"):
+                        dtype = F32 if (kappa == 1e2 and rng.random() < 0.5) else F64
+                        n = rng.choice([5, 8, 16, 32])
+                        mi = n + rng.choice([3, 25]) if rel == "n<maxit" else n if rel == "n=maxit" else max(1, n - rng.choice([1, n // 2]))
+                        tol = rng.choice([1e-2, 1e-3] if dtype == F32 else [1e-4, 1e-2] if kappa > 1e4 else [1e-4, 1e-2, 1e-8])
+                        fam = rng.choice(["geometric", "geometric", "uniform"])
+                        cols = rng.choice([1, 3])
+                        special = {0: "huge", 2: "tiny"} if cols == 3 and rng.random() < 0.6 else {}
+                        nt = rng.choice([0, 0, 1]) if cols == 3 else 0            # n_tridiag < number of columns
+                        mt = max(1, min(mi, rng.choice([1, 3]))) if nt else 0     # max_tridiag_iter < n_iter
+                        x0k = rng.choice(["none", "none", "random"])
+                        sc = make_scenario(consts, g, n, fam, kappa, dtype, cols=cols, special=special, x0_kind=x0k, pre=pre,
+                                           pre_form=rng.choice(["dense", "diag"]), tolerance=tol, max_iter=mi, max_tridiag_iter=mt,
+                                           n_tridiag=nt, terminate=term, eps=rng.choice([None, 1e-30]), stop_updating_after=rng.choice([None, 1e-14]))
+                        cell = (f"C08/nowarn/term={int(term)}|{rel}|kappa={kappa:g}|pre={pre}|tol={tol:g}|ntri={nt}|cols={cols}"
+                                f"|x0={x0k}|dtype={'f32' if dtype == F32 else 'f64'}")
+                        chk.case(cell + f"|n={n}|" + bits(float(sc["rhs"].double().sum())), nontrivial=True)
+                        r = run_impl(sc)
+                        pl = payload_of(sc, {"check": "nowarn"})
+                        if r.err:
+                            chk.violation(cell + "/raises", f"linear_cg raised {r.err}", pl)
+                            continue
+                        chk.count("nowarn_sweep:" + ("warned" if r.warn else "silent"))
+                        msg = nowarn_failure(sc, r)
+                        if msg:
+                            chk.violation(cell, msg, pl)
+
+
+def nowarn_failure(sc, r):
+    """None, or the description of a violated `no NumericalWarning => mean relative residual < tolerance`."""
+    if r.warn or len(r.calls) <= 1:
+        return None
+    A64 = sc["A"].double()
+    b = sc["rhs"].double()
+    bn = b.norm(dim=-2)
+    eps = sc.get("eps") if sc.get("eps") is not None else 1e-10
+    relres = (b - A64 @ r.result.double()).norm(dim=-2) / bn.clamp_min(1e-300)
+    masked = torch.where(bn < eps, torch.zeros_like(relres), relres)
+    m = float(masked.mean())
+    t = sc.get("tolerance") if sc.get("tolerance") is not None else float(sc["consts"]["cg_tolerance"])
+    kA = eff_kappa(sc)[1]
+    if not m < t * (1 + 1e-6) + 1000 * kA * unit(sc["dtype"]):
+        mi = sc.get("max_iter")
+        return (f"linear_cg returned after {len(r.calls) - 1} iterations (n={sc['n']}, max_iter={mi}, terminate_cg_by_size={sc.get('terminate')}) "
+                f"WITHOUT a NumericalWarning although the mean relative residual {m:.4e} is not below the tolerance {t:g}")
+    return None
 
 
 def check_raises(chk, consts, g):
@@ -920,6 +976,8 @@ def property_scenarios(chk, consts, g, rng):
                     cols = rng.choice([1, 2, 4])
                     kind = rng.choice(["none", "zero", "tiny", "huge", "subeps"])
                     special = {rng.randrange(cols): kind} if kind != "none" else {}
+                    if cols == 4 and rng.random() < 0.5:
+                        special = {0: "huge", 2: "tiny"}        # huge and tiny columns mixed with normal ones
                     pre = rng.choice(["none", "none", "jacobi", "lowrank", "exact"]) if n > 1 else "none"
                     x0_kind = rng.choice(["none", "none", "none", "random", "near"])
                     mode = i % 4
@@ -928,7 +986,8 @@ def property_scenarios(chk, consts, g, rng):
                     elif mode == 1:
                         params = dict(tolerance=0.0)
                     elif mode == 2:
-                        params = dict(tolerance=rng.choice([1e-2, 1e-4]), eps=1e-30, stop_updating_after=rng.choice([1e-3, 1e-2, 1e-5]))
+                        params = dict(tolerance=rng.choice([1e-2, 1e-4]), eps=1e-30, stop_updating_after=rng.choice([1e-3, 1e-2, 1e-5]),
+                                      terminate=rng.choice([None, True]))
                     else:
                         params = dict(tolerance=rng.choice([1e-3, 1.0]), eps=rng.choice([1e-20, 1e-10]), stop_updating_after=1e-8, terminate=rng.choice([True, False]))
                     sc = make_scenario(consts, g, n, fam, kappa, dtype, abatch=ab, rbatch=rb, cols=cols, special=special, x0_kind=x0_kind, pre=pre,
@@ -993,6 +1052,7 @@ def run(chk):
     run_correspondence(chk, corr_scenarios(chk, consts, g, rng, 70 if quick else 400))
     # ---- property on the implementation
     check_raises(chk, consts, g)
+    check_nowarn(chk, consts, g, rng)
     for sc in property_scenarios(chk, consts, g, rng):
         chk.count("fam:" + sc["fam"])
         chk.count(f"n:{sc['n']}")
@@ -1035,6 +1095,11 @@ def replay(chk, payload):
         check_tridiag(chk, sc)
     elif kind == "corr":
         run_correspondence(chk, [sc])
+    elif kind == "nowarn":
+        msg = nowarn_failure(sc, run_impl(sc))
+        if msg:
+            chk.violation(cell_of(sc, "nowarn"), "replay: " + msg, p)
+        chk.case("replay-nowarn")
     elif kind == "precond":
         r = run_impl(sc)
         xs = torch.linalg.solve(sc["A"], sc["rhs"].double())
